@@ -663,6 +663,8 @@ func (se *SessionExecutor) handleKeepSessionPing() (err error) {
 			}
 			ksConn.Recycle()
 		}
+		// the connections are back in their pools: they are not pinned any more
+		se.ksConns = make(map[string]backend.PooledConnect)
 		return mysql.ErrBadConn
 	}
 
